@@ -640,7 +640,10 @@ func execC12() {
 
 // ---------------------------------------------------------------- regex facts (DESIGN 7.2)
 var rxPatterns = append(append([]string{"a", "^a.", "b$", "a|b", "[ab]+", "^$", "a.c", "x"}, slashPatterns...), wholePatterns...)
-var rxStrings = append(append([]string{"", "a", "b", "ab", "ba", "abc", "c", "aa", "xb", "a b"}, slashStrings...), wholeStrings...)
+var rxStrings = append(append(append([]string{"", "a", "b", "ab", "ba", "abc", "c", "aa", "xb", "a b"}, slashStrings...), wholeStrings...), alikeStrings...)
+
+// strings that print like a value of another kind (ScriptGen!AlikeGroups): subjects of =~ / match / search in the look-alike cells
+var alikeStrings = []string{"1", "2", "true", "false", "<nil>", "null", "1.5", "[]", "{}", "map[]", "[1 2]", "map[a:1]"}
 
 // whole-string versus partial matching (C12: match() is against the entire string, search() and =~ anywhere): top-level
 // alternation with and without own anchors, escaped trailing $ / leading ^, anchors in the middle, .* - and subjects that
